@@ -99,9 +99,11 @@ type M struct {
 	classes          map[string]int // untrusted class histogram, reported next to the trace
 	rootMemo         map[string][2]any
 	prop             string
-	perFile          int // events per shard file
-	sizeIdx          int // position in the walk over power-of-two preimage sizes
-	giants, giantMax int // calls with a >= 64 KiB tag made / allowed in this run
+	perFile          int        // events per shard file
+	aux              *rand.Rand // a second stream for the systematic blocks: they do not disturb the main one
+	bIdx             int        // position in the walk over (boundary window kind x coordinate role)
+	sizeIdx          int        // position in the walk over power-of-two preimage sizes
+	giants, giantMax int        // calls with a >= 64 KiB tag made / allowed in this run
 	files            []string
 	dir              string
 	shard            int
@@ -114,7 +116,8 @@ type M struct {
 
 func newMachine(dir, prop string, seed int64, ne, ns int) *M {
 	m := &M{rng: rand.New(rand.NewSource(seed)), classes: map[string]int{}, rootMemo: map[string][2]any{},
-		prop: prop, dir: dir, perFile: 1 << 30, raw: secp256k1.VerifAccessor, giantMax: 2}
+		prop: prop, dir: dir, perFile: 1 << 30, raw: secp256k1.VerifAccessor, giantMax: 2,
+		aux: rand.New(rand.NewSource(seed*7919 + 17))}
 	learnScalarErrors()
 	m.E = make([]*secp256k1.Element, ne)
 	m.S = make([]*secp256k1.Scalar, ns)
@@ -317,6 +320,17 @@ func setScalar(s *secp256k1.Scalar, v *big.Int) {
 }
 
 func be32(v *big.Int) []byte { return v.FillBytes(make([]byte, 32)) }
+
+// withAux runs f with the auxiliary random stream in place of the main one and returns the number of events it
+// wrote (the caller adds them to its budget): blocks added to a generator this way leave every draw of the main
+// stream -- and so every history generated before they existed -- as it was.
+func (m *M) withAux(f func()) int {
+	saved, before := m.rng, m.events
+	m.rng = m.aux
+	f()
+	m.rng = saved
+	return m.events - before
+}
 
 // mustBeBelow stops the harness (exit 2: inconclusive, never a verdict) when one of ITS OWN setup values is out of
 // range -- a generator slip must not be able to look like a disagreement of the library.
